@@ -14,7 +14,7 @@ ASSUMPTIONS = ["floating point is abstracted to exact real arithmetic in the the
 
 
 def run(res, tier, seed, broken):
-    rules.run(res, tier, seed, broken, ["C04"], True)
+    rules.run(res, tier, seed, broken, ["C04"], True, containers=True)
 
 
 def replay(rp):
